@@ -213,6 +213,39 @@ func c20Pass(c *mon.Ctx) {
 		}
 	}
 	c.Add("errno_names_through_rule_encoder", int64(2*len(auparse.AuditErrnoToNum)))
+	// an exit value is an errno name only when it IS minus that errno: numbers that merely share low bits with one
+	// (-n + k*2^16, -n - k*2^16, ...) print as numbers and come back as the same value
+	for num := range auparse.AuditErrnoToName {
+		for _, v := range []int64{int64(65536 - num), int64(1048576 - num), int64(-65536 - num), int64(131072 - num), int64(-num) - 1<<24, int64(256 - num), int64(-num) + 1<<30} {
+			if v < -(1<<31) || v >= 1<<31 {
+				continue
+			}
+			ev.Add(1)
+			line := "-a always,exit -S open -F exit=" + strconv.FormatInt(v, 10)
+			r, err := flags.Parse(line)
+			if err != nil {
+				continue
+			}
+			wire, err := rule.Build(r)
+			if err != nil {
+				continue
+			}
+			c.Add("exit_values_congruent_to_an_errno", 1)
+			back, err := rule.ToCommandLine(wire, false)
+			if err != nil {
+				bad("errno-congruent-print", "%q: ToCommandLine: %v", line, err)
+				continue
+			}
+			r2, err := flags.Parse(back)
+			var wire2 rule.WireFormat
+			if err == nil {
+				wire2, err = rule.Build(r2)
+			}
+			if err != nil || string(wire2) != string(wire) {
+				bad("errno-congruent-roundtrip", "%q prints back as %q, which re-encodes differently (%v): the value is not minus errno %d, it only shares low bits with it", line, back, err, num)
+			}
+		}
+	}
 
 	// ---- (3) architectures ----
 	tables := rule.VerifExportTables()
@@ -823,7 +856,7 @@ func c20Run(c *mon.Ctx) {
 func init() {
 	register(&mon.CheckSpec{
 		ID: "C20", Level: "exploration", Exhaustive: true,
-		Rule: "EXHAUSTIVE enumeration at run time of: all 65536 record type codes (name -> number -> name in three letter cases, text marshalling, unique names, repeated and concurrent categorisation); both errno maps in both directions (aliases resolve to one number; cross-checked with x/sys/unix); every architecture name <-> code (unique, String(), the rule package's reverse table, linux/audit.h spot table, and through Build/ToCommandLine with = and !=); every (arch, syscall) entry (a name maps to one number, the rule package's reverse table, and a rule '-F arch=A -S name' sets exactly that bit and round-trips); every rule field / operator / comparison table entry (verif export hook) against linux/audit.h in both directions; every entry of normalizations.yaml (read from /repo, loaded with the exported loader and walked independently as a YAML node tree): record types resolve and print back identically, syscalls occur in at least one arch table, nothing listed twice, every record type selects the same normalisation on repeated evaluation for every subset of its has_fields, and a record type with several conditional normalisations selects the one whose has_fields the record carries (none when it carries none). Compound events of every named first record type with different syscalls are coalesced one after the other and re-checked afterwards (the shared table entries must not be written). The whole enumeration runs twice: on the cold process, and again after a workload of lookups that MISS the tables (unknown architectures, syscall numbers, record types, errno values and names through the parser, the coalescer and the rule encoder/decoder); deep copies of the exported tables taken before and after must be equal. Finally one goroutine per architecture parses SYSCALL/SECCOMP records of every syscall number of its table at the same time: every pair must come out under its own architecture's name. distinct_nontrivial = distinct named table entries visited.",
+		Rule: "EXHAUSTIVE enumeration at run time of: all 65536 record type codes (name -> number -> name in three letter cases, text marshalling, unique names, repeated and concurrent categorisation); both errno maps in both directions (aliases resolve to one number; cross-checked with x/sys/unix); every architecture name <-> code (unique, String(), the rule package's reverse table, linux/audit.h spot table, and through Build/ToCommandLine with = and !=); every (arch, syscall) entry (a name maps to one number, the rule package's reverse table, and a rule '-F arch=A -S name' sets exactly that bit and round-trips); every rule field / operator / comparison table entry (verif export hook) against linux/audit.h in both directions; every entry of normalizations.yaml (read from /repo, loaded with the exported loader and walked independently as a YAML node tree): record types resolve and print back identically, syscalls occur in at least one arch table, nothing listed twice, every record type selects the same normalisation on repeated evaluation for every subset of its has_fields, and a record type with several conditional normalisations selects the one whose has_fields the record carries (none when it carries none). Compound events of every named first record type with different syscalls are coalesced one after the other and re-checked afterwards (the shared table entries must not be written). The whole enumeration runs twice: on the cold process, and again after a workload of lookups that MISS the tables (unknown architectures, syscall numbers, record types, errno values and names through the parser, the coalescer and the rule encoder/decoder); deep copies of the exported tables taken before and after must be equal. Finally one goroutine per architecture parses SYSCALL/SECCOMP records of every syscall number of its table at the same time: every pair must come out under its own architecture's name. For every errno n seven exit values that only share low bits with -n go through Build -> ToCommandLine -> Build unchanged. distinct_nontrivial = distinct named table entries visited.",
 		Assumptions: []string{
 			"the tables are read through the exported maps/functions and the verif export hook at run time, so the check sees what the build contains",
 			"normalizations.yaml is read from the repository tree that the harness is built against (it is embedded from the same file)",
